@@ -127,6 +127,13 @@ def main():
             vals[name] = eval_int(m.group(1), vals)
         except Exception as e:  # noqa
             missing.append((name, path, str(e)))
+    # C07: the exit sites of the TCP connection event loop -> coq/gen/ConnExits.v (sibling script)
+    sys.path.insert(0, os.path.dirname(os.path.abspath(__file__)))
+    import gen_conn_exits
+    table, miss = gen_conn_exits.generate(REPO)
+    if table:
+        vals["CONN_EXIT_SITES"] = len(table)
+    missing += list(miss)
     lines = [
         "(* GENERATED by tools/gen_consts.py from the Rust source on every check. Do not edit. *)",
         "From Coq Require Import NArith.",
